@@ -303,6 +303,10 @@ pub fn spell(p: &P, st: &Style) -> String {
         pr.out.push_str("(?x)");
     }
     pr.show(p, 0);
+    if st.free {
+        // a free-spacing comment may run to the end of the pattern without a newline
+        pr.out.push_str(" # tail");
+    }
     pr.out
 }
 
@@ -315,6 +319,10 @@ fn flag_spellings(p: &P) -> Vec<(String, String)> {
         (format!("(?m:{})", base), format!("(?m){}", base)),
         (format!("(?U:{})", base), format!("(?U){}", base)),
         (format!("a(?i:{})", base), format!("a(?:(?i){})", base)),
+        // \A and \z are not affected by the multi-line flag
+        (format!("(?m:{})", base), format!("(?m:{})", base.replace("\\z", "(?-m:$)").replace("\\A", "(?-m:^)"))),
+        (format!("(?m)a\\z|{}", base), format!("(?m)a(?-m:$)|{}", base)),
+        (format!("(?m)\\A{}", base), format!("(?m)(?-m:^){}", base)),
     ]
 }
 
